@@ -40,9 +40,14 @@ def edge_in_domain(e, slack=64):
 
 
 def edge_scale(e):
-    """Magnitude s = max(1, |translations involved|)."""
+    """Magnitude s = max(1, |translations involved|).  For odometry edges the error depends on the vertex positions only through their
+    difference (and the implementation subtracts first), so the scale is the separation, not the distance from the origin."""
     P, ks, est, off = edge_operands(e)
     s = 1.0
+    if isinstance(e, M.EdgeOdometry) and len(P) == 2:
+        nt = {"r2": 2, "r3": 3, "se2": 2, "se3": 3}[ks[0]]
+        s = max(s, max(abs(x - y) for x, y in zip(P[0][:nt], P[1][:nt])), max(abs(x) for x in (est or [0.0])[:nt]))
+        return s
     for k, p in zip(ks, P):
         s = max(s, R.tmag(k, p))
     nt_est = {2: 2, 3: 3, 7: 3}.get(len(est or []), 0)
@@ -179,7 +184,9 @@ def check_edge_jacobians(ctx, e, where, fd=True, case=None, rng=None):
                 h = 1e-3 if k != "se3" else 1e-3
                 with np.errstate(all="ignore"):
                     Jfd = R.richardson_jac(f_real, R.CD[k], h)
-                tolfd = 1e-7 * s * (1.0 + np.abs(Jfd).max())
+                # finite differences of the real error are limited by the absolute coordinates (rounding eps x |t| divided by the step)
+                s_abs = max([s] + [R.tmag(kk, M.fl(vv.pose)) for kk, vv in zip(ks, e.vertices)])
+                tolfd = 1e-7 * s_abs * (1.0 + np.abs(Jfd).max())
                 all_ok &= ctx.close("jac-vs-FD-of-real-error", J, Jfd, tolfd, dict(feats, vertex=i), {"scale": s}, case)
     return all_ok
 
